@@ -385,7 +385,12 @@ def make_callback(env, op, ctor, case, role, rec, counters):
         if cont in ("dictkeys", "dict", "set"):
             uniq = []
             for v in vs:  # a dict / set would merge a Var that occurs twice
-                uniq.append(op.identity(v) if any(v is u for u in uniq) else v)
+                if any(v is u for u in uniq):
+                    try:
+                        v = op.identity(v)
+                    except Exception:  # noqa: BLE001 - no Identity for this type (nested sequences): plain list
+                        return vs
+                uniq.append(v)
             if cont == "set":
                 return set(uniq)
             d_ = {v: i for i, v in enumerate(uniq)}
@@ -1006,6 +1011,10 @@ def finish_case(case, rng, container=None):
         case["M"] = rng.choice(LOOP_M[1:])
     if ctor == "loop" and "cond" not in case and rng.random() < 0.2:
         case["cond"] = rng.choice(LOOP_COND[1:])
+    if ctor == "loop" and case.get("M") == "none" and not case["lists"]["v_initial"]:
+        # no trip count and no operand at all: a program without inputs that never terminates — value
+        # propagation (e.g. of the inlined model) would evaluate it forever; give it a trip count
+        case["M"] = "const3"
     if ctor == "if_" and "if_cond" not in case and rng.random() < 0.4:
         case["if_cond"] = rng.choice(IF_COND[1:])
     if ctor != "if_" and "opcont" not in case and rng.random() < 0.2:
@@ -1082,7 +1091,7 @@ def gen_cases(ck, info):
     maxlen_exh = 3  # Loop, SequenceMap
     maxlen_loop = ck.pick(3, 4)
     maxlen_scan = ck.pick(2, 3)
-    longer = ck.pick(0, 1500)  # seeded lists of length 4-5 over the larger type pool (thorough)
+    longer = ck.pick(0, 900)  # seeded lists of length 4-5 over the larger type pool (thorough)
     pool_x = POOL + EXTRA_TYPES
     tensors_x = TENSORS + [d for d in EXTRA_TYPES if "t" in d]
     if ck.thorough:  # every shipped module, also the ones that only re-export the constructor
@@ -1229,7 +1238,7 @@ def gen_cases(ck, info):
                                       "lists": {"additional_inputs": [t2, {"seq": t2}]}, "rel": "same", "k_extra": 0}, rng))
     # ---- every container kind at least once per constructor
     base = [c for c in cases if c["ctor"] != "if_" and prescription(c) is not None][:]
-    for mod_ctor in {(c["mod"], c["ctor"]) for c in base}:
+    for mod_ctor in sorted({(c["mod"], c["ctor"]) for c in base}):
         sub = [c for c in base if (c["mod"], c["ctor"]) == mod_ctor and natural_count(c["ctor"], c) >= 2][:40]
         for cont in CONTAINERS_ALL:
             if sub:
@@ -1274,7 +1283,7 @@ def gen_cases(ck, info):
                 cases.append(c)
     # ---- malformed callbacks and unnatural result counts
     base = [c for c in cases if prescription(c) is not None and not c.get("same_cb")]
-    for _ in range(ck.pick(480 if getattr(ck, "c19_escalated", False) else 240, 2000)):
+    for _ in range(ck.pick(480 if getattr(ck, "c19_escalated", False) else 240, 1500)):
         c = dict(rng.choice(base))
         roles = list(c["cbs"])
         cbs = {r: dict(c["cbs"][r]) for r in roles}
@@ -1783,7 +1792,7 @@ def run_nested(ck: core.Check, env: Env):
     if not mods:
         return stats
     esc = getattr(ck, "c19_escalated", False)
-    progs = nest.gen_programs(rng, P, mods, ck.pick(150 if esc else 45, 600), ck.pick(50 if esc else 15, 250))
+    progs = nest.gen_programs(rng, P, mods, ck.pick(150 if esc else 45, 400), ck.pick(50 if esc else 15, 150))
     try:
         models = ck.driver().ask_many("C19", [nest.model_request(p_, nest.STEPS) for p_ in progs])
     except Exception as e:  # noqa: BLE001
@@ -1906,7 +1915,7 @@ def _run(ck: core.Check, env: Env, info):
     info = dict(info, resolves=resolves)
     cases = gen_cases(ck, info)
     # which cases also get the later steps (builds, inference, value propagation)
-    n_steps = ck.pick(840 if getattr(ck, "c19_escalated", False) else 420, 2800)
+    n_steps = ck.pick(840 if getattr(ck, "c19_escalated", False) else 420, 2200)
     idx = list(range(len(cases)))
     def steppable(c):
         ds = [d for v in c.get("lists", {}).values() for d in v] + list(c.get("singles", {}).values())
